@@ -47,7 +47,23 @@ pub struct GlmCase {
     /// index into YSCALE_EXP: the targets are multiplied by 10^s (absent in older replay files = 0 = unscaled)
     #[serde(default)]
     pub yscale_ix: u8,
+    /// options left at their documented defaults (bit set = the setter is NOT called, the oracle uses the default):
+    /// 1 link (identity for power <= 0, log otherwise — doc comment of `link`), 2 alpha (1), 4 fit_intercept (true),
+    /// 8 tol (1e-4), 16 max_iter (100), 32 power (1, only when the case's power is 1). Absent in older replays = 0.
+    #[serde(default)]
+    pub unset: u8,
 }
+
+pub const UNSET_LINK: u8 = 1;
+pub const UNSET_ALPHA: u8 = 2;
+pub const UNSET_INTERCEPT: u8 = 4;
+pub const UNSET_TOL: u8 = 8;
+pub const UNSET_MAX_ITER: u8 = 16;
+pub const UNSET_POWER: u8 = 32;
+/// defaults of TweedieRegressorParams::new() (alpha, fit_intercept, max_iter, tol are not spelled out in doc comments;
+/// they are the scikit-learn defaults the type mirrors)
+pub const DEFAULT_ALPHA: f64 = 1.0;
+pub const DEFAULT_TOL: f64 = 1e-4;
 
 /// decimal exponent of the target scale; index 0 must stay 0. "Targets in range" includes tiny and huge positive
 /// targets: with the log link the scale moves into the intercept (s ln 10), with the identity link into all
@@ -74,11 +90,12 @@ pub fn case_strategy(_tier: Tier) -> impl Strategy<Value = GlmCase> {
                     proptest::collection::vec(any::<u16>(), 0..=3),
                     proptest::option::weighted(0.12, (any::<u16>(), 0u8..2)),
                     0u8..12,
+                    prop_oneof![3 => Just(0u8), 1 => Just(UNSET_LINK), 2 => 0u8..64],
                 ),
             )
         })
         .prop_map(
-            |((rows, w, power_ix, link_ix, alpha_ix), (intercept, tight_tol, noise_ix, scale_ix, zeros, reject, yscale_ix))| GlmCase {
+            |((rows, w, power_ix, link_ix, alpha_ix), (intercept, tight_tol, noise_ix, scale_ix, zeros, reject, yscale_ix, unset))| GlmCase {
                 rows,
                 w,
                 power_ix,
@@ -91,6 +108,7 @@ pub fn case_strategy(_tier: Tier) -> impl Strategy<Value = GlmCase> {
                 zeros,
                 reject,
                 yscale_ix,
+                unset,
             },
         )
 }
@@ -140,12 +158,22 @@ pub fn derive(case: &GlmCase) -> Option<Derived> {
     } else {
         [Lk::Identity, Lk::Log, Lk::Log, Lk::Log, Lk::Log, Lk::Logit, Lk::Logit, Lk::Logit][(case.link_ix as usize).min(7)]
     };
+    // link left unset: the documented default decides
+    let link = if case.unset & UNSET_LINK != 0 {
+        if power <= 0.0 {
+            Lk::Identity
+        } else {
+            Lk::Log
+        }
+    } else {
+        link
+    };
     let scale = SCALES[(case.scale_ix as usize).min(1)];
     let sigma = NOISE[(case.noise_ix as usize).min(2)];
     // identity link with power >= 1 needs positive means: the model must have an intercept to start inside the domain
     let yexp_raw = YSCALE_EXP[(case.yscale_ix as usize).min(YSCALE_EXP.len() - 1)];
     // ... and a log/logit model can follow a change of the target scale only through its intercept (s ln 10)
-    let intercept = case.intercept || (link == Lk::Identity && power >= 1.0) || (link != Lk::Identity && yexp_raw != 0);
+    let intercept = case.intercept || case.unset & UNSET_INTERCEPT != 0 || (link == Lk::Identity && power >= 1.0) || (link != Lk::Identity && yexp_raw != 0);
     let mut y = vec![0.0; n];
     for (i, r) in case.rows.iter().enumerate() {
         let lin: f64 = (0..p).map(|j| r.x[j] * 0.4 * at(&case.w, j).clamp(-3.0, 3.0)).sum();
@@ -259,8 +287,8 @@ pub fn check(case: &GlmCase, obs: &mut Obs) {
         obs.skip("degenerate_case");
         return;
     };
-    let alpha = ALPHAS[(case.alpha_ix as usize).min(3)];
-    let tol = TOLS[case.tight_tol as usize];
+    let alpha = if case.unset & UNSET_ALPHA != 0 { DEFAULT_ALPHA } else { ALPHAS[(case.alpha_ix as usize).min(3)] };
+    let tol = if case.unset & UNSET_TOL != 0 { DEFAULT_TOL } else { TOLS[case.tight_tol as usize] };
     let n = d.x.len();
     obs.class(match d.power {
         v if v == 0.0 => "power_0_normal",
@@ -296,17 +324,40 @@ pub fn check(case: &GlmCase, obs: &mut Obs) {
     };
     let xa = to_array2(&d.x, d.p);
     let ds = DatasetBase::new(xa.clone(), Array1::from(d.y.clone()));
-    let build = |max_iter: usize| {
-        TweedieRegressor::<f64>::params()
-            .alpha(alpha)
-            .fit_intercept(d.intercept)
-            .power(d.power)
-            .link(link)
-            .max_iter(max_iter)
-            .tol(tol)
+    // options whose bit is set in `unset` stay at their defaults; the oracle above already uses the default values.
+    // fit_intercept may only stay unset when the case did not ask for "no intercept" (d.intercept is then true anyway)
+    let build = |max_iter: Option<usize>| {
+        let mut b = TweedieRegressor::<f64>::params();
+        if case.unset & UNSET_ALPHA == 0 {
+            b = b.alpha(alpha);
+        }
+        if case.unset & UNSET_INTERCEPT == 0 {
+            b = b.fit_intercept(d.intercept);
+        }
+        if !(case.unset & UNSET_POWER != 0 && d.power == 1.0) {
+            b = b.power(d.power);
+        }
+        if case.unset & UNSET_LINK == 0 {
+            b = b.link(link);
+        }
+        if let Some(m) = max_iter {
+            b = b.max_iter(m);
+        }
+        if case.unset & UNSET_TOL == 0 {
+            b = b.tol(tol);
+        }
+        b
     };
+    let first_iters = if case.unset & UNSET_MAX_ITER != 0 { None } else { Some(MAX_ITER) };
+    obs.class_if(case.unset & UNSET_LINK != 0, "default_link_not_set");
+    obs.class_if(case.unset & UNSET_LINK != 0 && d.power == 0.0, "default_link_not_set_power_0");
+    obs.class_if(case.unset & UNSET_ALPHA != 0, "default_alpha_not_set");
+    obs.class_if(case.unset & UNSET_INTERCEPT != 0, "default_fit_intercept_not_set");
+    obs.class_if(case.unset & UNSET_TOL != 0, "default_tol_not_set");
+    obs.class_if(case.unset & UNSET_MAX_ITER != 0, "default_max_iter_not_set");
+    obs.class_if(case.unset & UNSET_POWER != 0 && d.power == 1.0, "default_power_not_set");
     obs.class_if(d.shrunk_steps > 0, "features_shrunk_for_first_step");
-    let Some(res) = obs.call("glm:fit", || build(MAX_ITER).fit(&ds)) else { return };
+    let Some(res) = obs.call("glm:fit", || build(first_iters).fit(&ds)) else { return };
 
     if let Some(what) = d.planted {
         obs.class("target_outside_support");
@@ -367,7 +418,7 @@ pub fn check(case: &GlmCase, obs: &mut Obs) {
     let mut j = j;
     if j.verdict == Verdict::NotStationary {
         // stopped on its own or cut off by max_iter? (same parameters with twice the iteration limit = stopped on its own)
-        let same = match vengine::guard(|| build(2 * MAX_ITER).fit(&ds)) {
+        let same = match vengine::guard(|| build(Some(2 * MAX_ITER)).fit(&ds)) {
             Ok(Ok(m2)) => {
                 m2.intercept.to_bits() == b.to_bits() && m2.coef.len() == w.len() && m2.coef.iter().zip(&w).all(|(a, c)| a.to_bits() == c.to_bits())
             }
